@@ -657,6 +657,7 @@ func runC02(c *Ctx) {
 	leafBlockCases(c, 0)
 	delimCases(c, nli)
 	codeSpanCases(c, nli)
+	codeBlockCases(c, nli)
 	var curS string
 	c.watchdog(120*time.Second, "spec-rewrite-hang", func() interface{} { return map[string]string{"markdown": curS} }, func() { specRewrites(c, mds[0], &curS) })
 }
